@@ -532,9 +532,8 @@ def es1(ctx, R):
         idx = None
         sl = it
         lower = sl.slice.lower if isinstance(sl, ast.Subscript) and isinstance(sl.slice, ast.Slice) else None
-        inits = [n for n in fi.node.body if isinstance(n, ast.Assign) and lower is not None and unparse(n.value) == unparse(lower)]
-        R.check(bool(inits), "reader.TdmsReader.read_raw_data_for_channel::counter initialised at the window start", fi.where(lp),
-                "manual segment counter starts at the slice's first segment", "no counter initialised with the slice's lower bound")
+        R.undecided("reader.TdmsReader.read_raw_data_for_channel::manual segment counter", fi.where(lp),
+                    "segments are numbered by a hand-maintained counter (its increments are checked by CS1; its initial value is not decided)")
     # both first- and last-segment adjustments are present and keyed on that number
     tests = [unparse(n.test) for n in ast.walk(lp) if isinstance(n, ast.If)]
     R.check(any("== start_segment" in t for t in tests) and any("== end_segment" in t for t in tests),
